@@ -3,6 +3,7 @@ package ice
 // C01 — two agents converge on the same, working candidate pair. Engine VT.
 
 import (
+	"sort"
 	"encoding/json"
 	"errors"
 	"fmt"
@@ -415,7 +416,19 @@ func checkC01(c *runCtx) {
 		}
 		specs = f
 	}
-	for _, s := range specs {
-		vtSearch(c, p, vtSpec{Name: s.name, Model: "pair", Cfg: s.cfg, Finish: true, Deadline: dl})
+	// the budget is shared fairly: a search may use twice its even share of what is left (searches that end early hand
+	// their time on), so that one search whose state space a defect inflates cannot starve the others; the full breadth-first
+	// searches, which are the largest, run last
+	sort.SliceStable(specs, func(i, j int) bool {
+		return !strings.Contains(specs[i].name, "full BFS") && strings.Contains(specs[j].name, "full BFS")
+	})
+	for i, s := range specs {
+		d := dl
+		if left := time.Until(dl); left > 0 {
+			if share := time.Now().Add(2 * left / time.Duration(len(specs)-i)); share.Before(d) {
+				d = share
+			}
+		}
+		vtSearch(c, p, vtSpec{Name: s.name, Model: "pair", Cfg: s.cfg, Finish: true, Deadline: d})
 	}
 }
